@@ -9,7 +9,26 @@ Local Open Scope Z_scope.
 Definition pristine (st : wstate) : Prop :=
   (1 <= nthr st)%nat /\ forall u, (nthr st <= u)%nat -> tcont (thr st u) = [] /\ tfinal (thr st u) = [].
 
-Definition MInv (st : wstate) : Prop := CInv (core st) /\ pristine st.
+(** the Wakers stored in the registry / in channels refer to bitmaps that exist *)
+Definition wfi (st : wstate) : Prop :=
+  (forall w wi, wreg st w = Some wi -> registered st (wbm wi) = true) /\
+  (forall c, cexists (chs st c) = true -> registered st (wbm (cw (chs st c))) = true) /\
+  (forall c, copen (chs st c) = true -> cexists (chs st c) = true).
+
+Lemma wfi_frame : forall st st',
+  (forall bm, registered st bm = true -> registered st' bm = true) ->
+  (forall w wi, wreg st' w = Some wi -> wreg st w = Some wi) ->
+  (forall c, cexists (chs st' c) = cexists (chs st c) /\ cw (chs st' c) = cw (chs st c) /\
+             (copen (chs st' c) = true -> copen (chs st c) = true \/ cexists (chs st c) = true)) ->
+  wfi st -> wfi st'.
+Proof.
+  intros st st' Hr Hw Hc [W1 [W2 W3]]. split; [|split].
+  - intros w wi H. apply Hr. eapply W1. eauto.
+  - intros c H. destruct (Hc c) as [A [B _]]. rewrite B. apply Hr. apply W2. congruence.
+  - intros c H. destruct (Hc c) as [A [_ C]]. rewrite A. destruct (C H); auto.
+Qed.
+
+Definition MInv (st : wstate) : Prop := CInv (core st) /\ pristine st /\ wfi st.
 
 Ltac eqbs :=
   repeat match goal with
@@ -85,7 +104,8 @@ Ltac pick_new :=
 Ltac newok_tac :=
   let j := fresh "j" in let Hj := fresh "Hj" in
   intros j Hj; simpl in Hj;
-  repeat (destruct Hj as [<-|Hj]); try contradiction; simpl; auto; try congruence.
+  repeat (destruct Hj as [<-|Hj]); try contradiction; simpl;
+  try (split; [try exact Logic.I; auto | auto; try congruence]); auto; try congruence.
 
 Lemma osome_updH_none : forall (f : hkind -> option vclock) k h,
   osome (updH f k None h) = true -> osome (f h) = true.
@@ -139,10 +159,10 @@ Ltac bm_tac st t pre r :=
   try (hstart_tac; fail).
 
 Lemma exec_lact_inv : forall st t m a r st' ev,
-  CInv (core st) -> tcont (thr st t) = ILock m a :: r ->
+  CInv (core st) -> wfi st -> tcont (thr st t) = ILock m a :: r ->
   exec_lact st t a r = (st', ev) -> CInv (core st').
 Proof.
-  intros st t m a r st' ev I Hc H.
+  intros st t m a r st' ev I Wf Hc H.
   pose proof (i_slab _ I) as S.
   assert (Hmain : main_only (ILock m a) = true -> t = main).
   { intro M. destruct (Nat.eq_dec t main); auto. exfalso.
@@ -152,7 +172,7 @@ Proof.
   { right. eexists. split; [reflexivity|exact Logic.I]. }
   destruct a; cbn [exec_lact] in H.
   - (* LPush *)
-    destruct (climb_reserved st bm) as [i|] eqn:Ecl; inversion H; subst; clear H; bm_tac st t [ILock m (LPush bit bm)] r.
+    destruct (climb_reserved st bm) as [i|] eqn:Ecl; inversion H; subst; clear H; bm_tac st t [ILock m (LPush bit bm who)] r.
     + pick_new. intros j Hj. simpl in Hj. destruct Hj as [<-|[<-|[]]].
       * eapply climb_at_ok; eauto.
       * simpl. auto.
@@ -175,7 +195,8 @@ Proof.
   - (* LChClosed *)
     inversion H; subst; clear H. bm_tac st t [ILock m (LChClosed c)] r. pick_new. newok_tac.
   - (* LChClose *)
-    destruct (copen (chs st c)); inversion H; subst; clear H; bm_tac st t [ILock m (LChClose c)] r; pick_new; newok_tac.
+    destruct (copen (chs st c)) eqn:Eo; inversion H; subst; clear H; bm_tac st t [ILock m (LChClose c)] r; pick_new; newok_tac.
+    destruct Wf as [_ [W2 W3]]. apply W2. apply W3. exact Eo.
   - (* LChHandler *)
     unfold ghost_handler in H. inversion H; subst; clear H.
     destruct del; [bm_tac st t [ILock m (LChHandler c true)] r|bm_tac st t [ILock m (LChHandler c false)] r]; pick_new; newok_tac.
@@ -332,10 +353,10 @@ Proof.
 Qed.
 
 Lemma exec_instr_inv : forall st t i r st' ev,
-  CInv (core st) -> tcont (thr st t) = i :: r ->
+  CInv (core st) -> wfi st -> tcont (thr st t) = i :: r ->
   exec_instr st t i r = (st', ev) -> CInv (core st').
 Proof.
-  intros st t i r st' ev I Hc H.
+  intros st t i r st' ev I Wf Hc H.
   destruct i; cbn [exec_instr] in H.
   - eapply exec_climb_inv; eauto.
   - (* ITopSwap *)
@@ -385,8 +406,9 @@ Proof.
   - (* ILock *)
     destruct (exec_lact (acq_mtx (set_owner st (updM (owner st) m (Some t))) t m) t a r) as [st2 ev2] eqn:E.
     inversion H; subst; clear H.
-    eapply (exec_lact_inv _ t m a r); [| |exact E].
+    eapply (exec_lact_inv _ t m a r); [| | |exact E].
     + eapply CInv_ceq; [|exact I]. same_core.
+    + exact Wf.
     + thr_simpl.
   - (* IUnlock *)
     destruct (exec_uact st t a r) as [st1 ev1] eqn:E. inversion H; subst; clear H.
@@ -457,22 +479,51 @@ Proof.
   eapply CInv_ceq; [exact B|]. eapply pres_add; eauto.
 Qed.
 
-Lemma fill_loop_inv : forall n st ev st' ev',
-  CInv (core st) -> fill_loop n st ev = (st', ev') ->
-  CInv (core st') /\ thr st' = thr st /\ nthr st' = nthr st.
+(** [add] and the registry *)
+Lemma wh_add_reg : forall st h st1 wi,
+  CInv (core st) -> h <> HReserved -> wh_add st h = Some (st1, wi) ->
+  (forall bm, registered st bm = true -> registered st1 bm = true) /\ registered st1 (wbm wi) = true.
 Proof.
-  induction n as [|n IH]; intros st ev st' ev' I H; cbn [fill_loop] in H.
+  intros st h st1 wi I Hh H.
+  pose proof (i_slab _ I) as S.
+  destruct (wh_add_core st h st1 wi H) as [c1 [A [B _]]].
+  pose proof (c_add_spec (core st) h c1 wi S Hh A) as P.
+  assert (S1 : SInv (core st1)).
+  { eapply (i_slab (core st1)). eapply CInv_ceq; [exact B|]. eapply pres_add; eauto. }
+  assert (El : slen (c_sl c1) = slen (sl st1)) by (destruct B as [? ? ? Q ? ? ? ? ? ? ? ?]; rewrite Q; reflexivity).
+  split.
+  - intros bm Hr. change (creg (core st1) bm = true). apply creg_iff; auto.
+    change (creg (core st) bm = true) in Hr. apply creg_iff in Hr; auto.
+    pose proof (ap_len _ _ _ _ P). cbn [core c_sl] in *. lia.
+  - change (creg (core st1) (wbm wi) = true). apply creg_iff; auto.
+    rewrite (ap_bm _ _ _ _ P). destruct (ap_bit _ _ _ _ P) as [[Hb0 Hb1] _].
+    pose proof (ap_get _ _ _ _ P) as G. apply slab_get_some in G. destruct G as [G _].
+    cbn [core c_sl]. rewrite <- El. split; [apply Z.div_pos; lia|].
+    assert (4096 * (wbit wi / 4096) <= wbit wi) by (apply Z.mul_div_le; lia). lia.
+Qed.
+
+Lemma fill_loop_inv : forall n st ev st' ev',
+  CInv (core st) -> wfi st -> fill_loop n st ev = (st', ev') ->
+  CInv (core st') /\ thr st' = thr st /\ nthr st' = nthr st /\ wfi st'.
+Proof.
+  induction n as [|n IH]; intros st ev st' ev' I Wf H; cbn [fill_loop] in H.
   - inversion H; subst. auto.
   - destruct (wh_add st (HPlain (1000000 + nfill st))) as [[st1 wi]|] eqn:E.
-    + destruct (wh_add_core _ _ _ _ E) as [c1 [A [B [C1 [C2 _]]]]].
+    + destruct (wh_add_core _ _ _ _ E) as [c1 [A [B [C1 [C2 [C3 [C4 [C5 [C6 [C7 C8]]]]]]]]]].
+      assert (I1 : CInv (core st1)) by (eapply (add_model st _ st1 wi I); [|exact E]; discriminate).
       apply IH in H.
-      * destruct H as [H1 [H2 H3]]. split; auto. cbn in H2, H3. split; congruence.
-      * eapply CInv_ceq; [|eapply (add_model st); eauto; discriminate]. same_core.
+      * destruct H as [H1 [H2 [H3 H4]]]. split; auto. cbn in H2, H3. split; [congruence|]. split; [congruence|auto].
+      * eapply CInv_ceq; [|exact I1]. same_core.
+      * destruct (wh_add_reg st (HPlain (1000000 + nfill st)) st1 wi I ltac:(discriminate) E) as [R _].
+        destruct Wf as [W1 [W2 W3]]. split; [|split].
+        -- intros w0 wi0. cbn. rewrite C5. intro E0. apply R. eapply W1; eauto.
+        -- intros c0. cbn. rewrite C7. intro E0. apply R. apply W2; auto.
+        -- intros c0. cbn. rewrite C7. apply W3.
     + inversion H; subst. auto.
 Qed.
 
 Lemma spawn_inv : forall st t p final,
-  CInv (core st) -> pristine st -> (forall i, In i final -> okfinal i) ->
+  CInv (core st) -> pristine st -> (forall i, In i final -> okfinal_c (core st) i) ->
   CInv (core (spawn_thread st t p final)) /\ pristine (spawn_thread st t p final).
 Proof.
   intros st t p final I [P0 P] Hf. split.
@@ -498,11 +549,17 @@ Ltac prist st t := eapply (pristine_upd st _ t); eauto; thr_simpl.
 Ltac bm0 st t :=
   eapply (benign_model' st _ t [] []); eauto; try (intros ? ? ? []; fail); try thr_simpl; try (nohstart; fail).
 
+Ltac wfi_same st := apply (wfi_frame st); auto; intros; cbn in *; unfold updZ in *; cbn in *;
+  repeat match goal with
+         | |- context [?a =? ?b] => destruct (Z.eqb_spec a b); subst
+         | H : context [?a =? ?b] |- _ => destruct (Z.eqb_spec a b); subst
+         end; cbn in *; auto; try congruence; try (repeat split; auto; congruence).
+
 Lemma begin_cmd_inv : forall st t c st' ev done,
-  CInv (core st) -> pristine st -> tcont (thr st t) = [] -> (t < nthr st)%nat ->
-  begin_cmd st t c = (st', ev, done) -> CInv (core st') /\ pristine st'.
+  CInv (core st) -> pristine st -> wfi st -> tcont (thr st t) = [] -> (t < nthr st)%nat ->
+  begin_cmd st t c = (st', ev, done) -> CInv (core st') /\ pristine st' /\ wfi st'.
 Proof.
-  intros st t c st' ev done I P Hc Ht H.
+  intros st t c st' ev done I P Wf Hc Ht H.
   pose proof (i_slab _ I) as S.
   assert (Hc0 : tcont (thr st t) = [] ++ []) by exact Hc.
   assert (Hsh : ((@nil instr) = [] /\ (@nil instr) = []) \/ exists i, (@nil instr) = [i] /\ consumable i) by (left; auto).
@@ -510,35 +567,43 @@ Proof.
   - (* CWake *)
     destruct (wreg st w) as [wi|]; [|inversion H; subst; auto].
     destruct (climb_start st wi (Some (HPlain w))) as [i|] eqn:E; inversion H; subst; clear H; [|auto].
-    split; [|prist st t].
+    split; [|split; [prist st t|wfi_same st]].
     bm0 st t. pick_new. intros j Hj. inv_pre Hj. eapply climb_at_ok; eauto.
   - (* CDropW *)
-    destruct (wreg st w) as [wi|]; [|inversion H; subst; auto].
+    destruct (wreg st w) as [wi|] eqn:Ew; [|inversion H; subst; auto].
     destruct (wbusy st w); inversion H; subst; clear H.
-    + split; [|prist st t]. bm0 st t. pick_new. newok_tac.
-    + split; [|prist st t]. eapply CInv_ceq; [|exact I]. same_core.
+    + split; [|split; [prist st t|wfi_same st; try discriminate]].
+      bm0 st t. pick_new. newok_tac. destruct Wf as [W1 _]. eapply W1; eauto.
+    + split; [|split; [prist st t|wfi_same st; try discriminate]]. eapply CInv_ceq; [|exact I]. same_core.
   - (* CSend *)
     destruct (Waker.creg (chs st c)); inversion H; subst; clear H; [|auto].
-    split; [|prist st t]. bm0 st t. pick_new. newok_tac.
+    split; [|split; [prist st t|wfi_same st]]. bm0 st t. pick_new. newok_tac.
   - (* CClosed *)
     destruct (Waker.creg (chs st c)); inversion H; subst; clear H; [|auto].
-    split; [|prist st t]. bm0 st t. pick_new. newok_tac.
+    split; [|split; [prist st t|wfi_same st]]. bm0 st t. pick_new. newok_tac.
   - (* CNew *)
     destruct (negb (is_main t) || wused st w); [inversion H; subst; auto|].
     destruct (wh_add st (HPlain w)) as [[st1 wi]|] eqn:E; inversion H; subst; clear H; [|auto].
-    destruct (wh_add_core _ _ _ _ E) as [c1 [A [B [C1 [C2 _]]]]].
-    split.
-    + eapply CInv_ceq; [|eapply (add_model st); eauto; discriminate]. same_core.
+    destruct (wh_add_core _ _ _ _ E) as [c1 [A [B [C1 [C2 [C3 [C4 [C5 [C6 [C7 C8]]]]]]]]]].
+    destruct (wh_add_reg st (HPlain w) st1 wi I ltac:(discriminate) E) as [R1 R2].
+    split; [|split].
+    + eapply CInv_ceq; [|eapply (add_model st _ st1 wi I); [|exact E]; discriminate]. same_core.
     + destruct P as [P0 P]. split; cbn; rewrite ?C2; auto. intros u Hu. rewrite C1. apply P. lia.
+    + destruct Wf as [W1 [W2 W3]]. split; [|split].
+      * intros w0 wi0. cbn. unfold updZ. destruct (Z.eqb_spec w0 w); subst.
+        -- intro E0. inversion E0; subst. exact R2.
+        -- rewrite C5. intro E0. apply R1. eapply W1; eauto.
+      * intros c0. cbn. rewrite C7. intro E0. apply R1. apply W2; auto.
+      * intros c0. cbn. rewrite C7. apply W3.
   - (* CFill *)
     destruct (negb (is_main t)); [inversion H; subst; auto|].
     destruct (fill_loop (Z.to_nat n) st []) as [st1 ev1] eqn:E. inversion H; subst; clear H.
-    destruct (fill_loop_inv _ _ _ _ _ I E) as [A [B C]]. split; auto.
+    destruct (fill_loop_inv _ _ _ _ _ I Wf E) as [A [B [C D]]]. split; auto. split; auto.
     destruct P as [P0 P]. split; rewrite ?C; auto. intros u Hu. rewrite B. apply P. lia.
   - (* CPoll *)
     destruct (is_main t) eqn:Em; cbn [negb] in H; inversion H; subst; clear H; [|auto].
     unfold is_main in Em. apply Nat.eqb_eq in Em. subst t.
-    split; [|prist st 0%nat].
+    split; [|split; [prist st 0%nat|wfi_same st]].
     eapply CInv_ceq; [|eapply (pres_poll_begin (core st)); eauto].
     constructor; intros; try (cbn; reflexivity);
       cbn; unfold updN, updT, th, main; cbn -[Nat.eqb]; eqbs; try reflexivity; congruence.
@@ -546,65 +611,78 @@ Proof.
     destruct (is_main t) eqn:Em; cbn [negb] in H; [|inversion H; subst; auto].
     destruct (gnotified st); inversion H; subst; clear H; [|auto].
     unfold is_main in Em. apply Nat.eqb_eq in Em. subst t.
-    split; [|prist st 0%nat].
+    split; [|split; [prist st 0%nat|wfi_same st]].
     eapply CInv_ceq; [|eapply (pres_poll_begin (core st)); eauto].
     constructor; intros; try (cbn; reflexivity);
       cbn; unfold updN, updT, th, main; cbn -[Nat.eqb]; eqbs; try reflexivity; congruence.
   - (* CSpawn *)
     destruct (negb (is_main t)); inversion H; subst; clear H; [auto|].
-    apply spawn_inv; auto. intros i [].
+    destruct (spawn_inv st t (-1) [] I P) as [A B]; [intros i []|]. split; auto.
   - (* CJoin *)
     destruct (negb (is_main t)); inversion H; subst; clear H; [auto|].
-    split; [|prist st t]. bm0 st t. pick_new. newok_tac.
+    split; [|split; [prist st t|wfi_same st]]. bm0 st t. pick_new. newok_tac.
   - (* CWaitIdle *)
     destruct (negb (is_main t)); inversion H; subst; clear H; [auto|].
-    split; [|prist st t]. bm0 st t. pick_new. newok_tac.
+    split; [|split; [prist st t|wfi_same st]]. bm0 st t. pick_new. newok_tac.
   - (* CCNew *)
-    destruct (negb (is_main t) || cexists (chs st c)); [inversion H; subst; auto|].
+    destruct (negb (is_main t) || cexists (chs st c)) eqn:Eg; [inversion H; subst; auto|].
     destruct (wh_add st (HChan c)) as [[st1 wi]|] eqn:E; inversion H; subst; clear H; [|auto].
-    destruct (wh_add_core _ _ _ _ E) as [c1 [A [B [C1 [C2 _]]]]].
-    assert (I1 : CInv (core st1)) by (eapply (add_model st); eauto; discriminate).
-    split.
+    destruct (wh_add_core _ _ _ _ E) as [c1 [A [B [C1 [C2 [C3 [C4 [C5 [C6 [C7 C8]]]]]]]]]].
+    destruct (wh_add_reg st (HChan c) st1 wi I ltac:(discriminate) E) as [R1 R2].
+    assert (I1 : CInv (core st1)) by (eapply (add_model st _ st1 wi I); [|exact E]; discriminate).
+    split; [|split].
     + eapply (benign_model' st1 _ t [] []); eauto; try (intros ? ? ? []; fail); try thr_simpl.
       pick_new. newok_tac.
     + destruct P as [P0 P]. split; cbn; rewrite ?C2; auto. intros u Hu. unfold updN, th.
       destruct (Nat.eqb_spec u t); [lia|]. rewrite C1. apply P. lia.
+    + destruct Wf as [W1 [W2 W3]]. apply orb_false_iff in Eg. destruct Eg as [_ Eg]. split; [|split].
+      * intros w0 wi0. cbn. rewrite C5. intro E0. apply R1. eapply W1; eauto.
+      * intros c0. cbn. unfold updZ. rewrite C7. destruct (Z.eqb_spec c0 c); subst; cbn; [intros _; exact R2|].
+        intro E0. apply R1. apply W2; auto.
+      * intros c0. cbn. unfold updZ. rewrite C7. destruct (Z.eqb_spec c0 c); subst; cbn; [discriminate|]. apply W3.
   - (* CCDrop *)
     destruct (negb (is_main t) || negb (cguard (chs st c))); inversion H; subst; clear H; [auto|].
-    split; [|prist st t]. bm0 st t. pick_new. newok_tac.
+    split; [|split; [prist st t|wfi_same st]]. bm0 st t. pick_new. newok_tac.
   - (* CPNew *)
     destruct (negb (is_main t) || pexists (pps st p)); [inversion H; subst; auto|].
     destruct (wh_add st (HPipe p)) as [[st1 wi]|] eqn:E; inversion H; subst; clear H; [|auto].
-    destruct (wh_add_core _ _ _ _ E) as [c1 [A [B [C1 [C2 _]]]]].
-    assert (I1 : CInv (core st1)) by (eapply (add_model st); eauto; discriminate).
-    apply spawn_inv.
+    destruct (wh_add_core _ _ _ _ E) as [c1 [A [B [C1 [C2 [C3 [C4 [C5 [C6 [C7 C8]]]]]]]]]].
+    destruct (wh_add_reg st (HPipe p) st1 wi I ltac:(discriminate) E) as [R1 R2].
+    assert (I1 : CInv (core st1)) by (eapply (add_model st _ st1 wi I); [|exact E]; discriminate).
+    match goal with |- CInv (core (spawn_thread ?S t p ?F)) /\ _ => destruct (spawn_inv S t p F) as [X Y] end.
     + eapply CInv_ceq; [|exact I1]. same_core.
     + destruct P as [P0 P]. split; cbn; rewrite ?C2; auto. intros u Hu. rewrite C1. apply P. lia.
-    + intros i Hi. inv_pre Hi. exact Logic.I.
+    + intros i Hi. inv_pre Hi. exact R2.
+    + split; auto. split; auto.
+      destruct Wf as [W1 [W2 W3]]. split; [|split].
+      * intros w0 wi0. cbn. rewrite C5. intro E0. apply R1. eapply W1; eauto.
+      * intros c0. cbn. rewrite C7. intro E0. apply R1. apply W2; auto.
+      * intros c0. cbn. rewrite C7. apply W3.
   - (* CPSend *)
     destruct (negb (is_main t) || negb (phandle (pps st p))); inversion H; subst; clear H; [auto|].
-    split; [|prist st t]. bm0 st t. pick_new. newok_tac.
+    split; [|split; [prist st t|wfi_same st]]. bm0 st t. pick_new. newok_tac.
   - (* CPDrop *)
     destruct (negb (is_main t) || negb (phandle (pps st p))); inversion H; subst; clear H; [auto|].
-    split; [|prist st t]. bm0 st t. pick_new. newok_tac.
+    split; [|split; [prist st t|wfi_same st]]. bm0 st t. pick_new. newok_tac.
   - (* CRecv *)
     destruct (tpipe (th st t) <? 0); inversion H; subst; clear H; [auto|].
-    split; [|prist st t]. bm0 st t. pick_new. newok_tac.
+    split; [|split; [prist st t|wfi_same st]]. bm0 st t. pick_new. newok_tac.
   - (* CLSend *)
     destruct (tpipe (th st t) <? 0); inversion H; subst; clear H; [auto|].
-    split; [|prist st t]. bm0 st t. pick_new. newok_tac.
+    split; [|split; [prist st t|wfi_same st]]. bm0 st t. pick_new. newok_tac.
   - (* CCancel *)
     destruct (tpipe (th st t) <? 0); inversion H; subst; clear H; [auto|].
-    split; [|prist st t]. bm0 st t. pick_new. newok_tac.
+    split; [|split; [prist st t|wfi_same st]]. bm0 st t. pick_new. newok_tac.
   - (* CPanic *)
     destruct (tpipe (th st t) <? 0); inversion H; subst; clear H; [auto|].
-    split.
+    split; [|split].
     + eapply CInv_ceq; [|eapply (pres_setfinal (core st) t (ILock (MPq (tpipe (th st t))) (LPqPanic (tpipe (th st t))) :: tfinal (th st t))); eauto].
       * constructor; intros; try (cbn; reflexivity);
           cbn; unfold updN, updT, th; cbn -[Nat.eqb]; eqbs; try reflexivity; congruence.
       * intros i [<-|Hi]; [exact Logic.I|]. eapply (i_final _ I t); eauto.
     + destruct P as [P0 P]. split; auto. intros u Hu. cbn in Hu. cbn. unfold updN, th.
       destruct (Nat.eqb_spec u t); [lia|]. apply P; auto.
+    + wfi_same st.
 Qed.
 
 (** ** end of a step: normalisation, completion, exit sequence *)
@@ -833,37 +911,133 @@ Proof.
   - inversion H; subst; clear H. split; [prist st t|exact Ht].
 Qed.
 
+(** the registry part of the invariant *)
+Lemma wfi_eq : forall st st',
+  vlen st' = vlen st -> wreg st' = wreg st -> chs st' = chs st -> wfi st -> wfi st'.
+Proof.
+  intros st st' Hv Hw Hc [W1 [W2 W3]]. unfold wfi, registered. rewrite Hv, Hw, Hc. auto.
+Qed.
+
+Lemma ghost_collect_reg : forall bits st,
+  vlen (ghost_collect st bits) = vlen st /\ wreg (ghost_collect st bits) = wreg st /\ chs (ghost_collect st bits) = chs st.
+Proof.
+  unfold ghost_collect. induction bits as [|b bits IH]; intro st; [repeat split; reflexivity|].
+  cbn [fold_left]. destruct (slab_get (sl st) b); [|apply IH].
+  match goal with |- vlen (fold_left _ _ ?S) = _ /\ _ => destruct (IH S) as [A [B C]] end.
+  rewrite A, B, C. repeat split; reflexivity.
+Qed.
+
+Lemma notify_fold_reg : forall us st,
+  let st' := fold_left (fun s u => upd_th s u (set_twaiting (th s u) false)) us st in
+  vlen st' = vlen st /\ wreg st' = wreg st /\ chs st' = chs st.
+Proof.
+  induction us as [|v us IH]; intro st; cbn zeta; [repeat split; reflexivity|].
+  cbn [fold_left]. destruct (IH (upd_th st v (set_twaiting (th st v) false))) as [A [B C]]. cbn zeta in *.
+  rewrite A, B, C. repeat split; reflexivity.
+Qed.
+
+Lemma exec_lact_wfi : forall st t a r st' ev, wfi st -> exec_lact st t a r = (st', ev) -> wfi st'.
+Proof.
+  intros st t a r st' ev Wf H.
+  destruct a; cbn [exec_lact] in H; unfold ghost_handler in H; destr_all H; inversion H; subst; clear H;
+    try (wfi_same st; fail).
+Qed.
+
+Lemma exec_uact_wfi : forall st t a r st' ev, wfi st -> exec_uact st t a r = (st', ev) -> wfi st'.
+Proof.
+  intros st t a r st' ev Wf H.
+  destruct a; cbn [exec_uact] in H; inversion H; subst; clear H; wfi_same st.
+Qed.
+
+Lemma exec_instr_wfi : forall st t i r st' ev, wfi st -> exec_instr st t i r = (st', ev) -> wfi st'.
+Proof.
+  intros st t i r st' ev Wf H. destruct i; cbn [exec_instr] in H.
+  - destruct k; cbn [exec_climb] in H; destr_all H; inversion H; subst; clear H;
+      (eapply wfi_eq; [| | |exact Wf]; reflexivity).
+  - inversion H; subst; clear H. eapply wfi_eq; [| | |exact Wf]; reflexivity.
+  - destruct bms; inversion H; subst; clear H; [exact Wf|]. eapply wfi_eq; [| | |exact Wf]; reflexivity.
+  - destruct ls; [inversion H; subst; exact Wf|].
+    destruct (collect (bmbase st bm) z (leaf st bm z)) as [bits ok].
+    match type of H with context [ghost_collect ?S bits] => destruct (ghost_collect_reg bits S) as [A [B C]]; remember (ghost_collect S bits) as s3 eqn:Es3 end.
+    inversion H; subst st' ev; clear H. eapply wfi_eq; [| | |exact Wf]; cbn; [rewrite A|rewrite B|rewrite C]; reflexivity.
+  - inversion H; subst; exact Wf.
+  - inversion H; subst; exact Wf.
+  - inversion H; subst; exact Wf.
+  - match type of H with context [exec_lact ?S t ?aa ?rr] => destruct (exec_lact S t aa rr) as [s2 e2] eqn:E end.
+    inversion H; subst; clear H. eapply exec_lact_wfi; [|exact E]. exact Wf.
+  - destruct (exec_uact st t a r) as [s1 e1] eqn:E. inversion H; subst; clear H.
+    apply exec_uact_wfi in E; auto.
+  - inversion H; subst; clear H. eapply wfi_eq; [| | |exact Wf]; reflexivity.
+  - match type of H with context [exec_lact ?S t ?aa ?rr] => destruct (exec_lact S t aa rr) as [s2 e2] eqn:E end.
+    inversion H; subst; clear H. eapply exec_lact_wfi; [|exact E]. exact Wf.
+  - inversion H; subst st' ev; clear H.
+    match goal with |- wfi (set_cont (fold_left ?f ?us st) t r) => destruct (notify_fold_reg us st) as [A [B C]] end.
+    cbn zeta in *. eapply wfi_eq; [| | |exact Wf]; cbn; auto.
+  - unfold ghost_handler in H. inversion H; subst; clear H. destruct del; (eapply wfi_eq; [| | |exact Wf]; reflexivity).
+  - inversion H; subst; clear H. eapply wfi_eq; [| | |exact Wf]; reflexivity.
+  - inversion H; subst; clear H. eapply wfi_eq; [| | |exact Wf]; reflexivity.
+Qed.
+
+Lemma settle_wfi : forall st t ev done st' ev', wfi st -> settle st t ev done = (st', ev') -> wfi st'.
+Proof.
+  intros st t ev done st' ev' Wf H. unfold settle in H.
+  destruct (norm (2 * (cont_size (tcont (th st t)) + length (tacc (th st t))) + 2) (sl st) (tacc (th st t)) (tcont (th st t)) ev)
+    as [[[s1 acc1] k1] ev1] eqn:En.
+  cbn zeta in H.
+  match type of H with (let '(st2, ev2) := ?E in _) = _ => destruct E as [st2 ev2] eqn:E2 end.
+  assert (W2 : wfi st2).
+  { destruct done as [v|].
+    - inversion E2; subst. eapply wfi_eq; [| | |exact Wf]; reflexivity.
+    - destruct k1.
+      + destruct (tcur _) as [c|]; inversion E2; subst.
+        * destruct c; (eapply wfi_eq; [| | |exact Wf]; reflexivity).
+        * eapply wfi_eq; [| | |exact Wf]; reflexivity.
+      + inversion E2; subst. eapply wfi_eq; [| | |exact Wf]; reflexivity. }
+  destruct (tcont (th st2 t)); [|inversion H; subst; auto].
+  destruct (tscript (th st2 t)); [|inversion H; subst; auto].
+  destruct (tcur (th st2 t)); [inversion H; subst; auto|].
+  destruct (tfinal (th st2 t)); inversion H; subst; auto.
+Qed.
+
 (** ** one step of the model *)
 Theorem wstep_inv : forall st t st' ev,
   MInv st -> wstep st t = (st', ev) -> MInv st'.
 Proof.
-  intros st t st' ev [I P] H. unfold wstep in H.
-  destruct (enabled st t) eqn:En; cbn [negb] in H; [|inversion H; subst; split; auto].
+  intros st t st' ev [I [P Wf]] H. unfold wstep in H.
+  destruct (enabled st t) eqn:En; cbn [negb] in H; [|inversion H; subst; split; [|split]; assumption].
   assert (Ht : (t < nthr st)%nat).
   { unfold enabled in En. apply andb_true_iff in En. destruct En as [En _]. apply Nat.ltb_lt in En. exact En. }
   assert (It : CInv (core (tick st t))).
   { eapply CInv_ceq; [|exact I]. unfold tick. same_core. }
   assert (Pt : pristine (tick st t)) by (unfold tick; prist st t).
+  assert (Wt : wfi (tick st t)) by (eapply wfi_eq; [| | |exact Wf]; reflexivity).
   assert (Htt : (t < nthr (tick st t))%nat) by exact Ht.
   set (s0 := tick st t) in *. clearbody s0. clear Ht En.
   destruct (tstarted (th s0 t)); cbn [negb] in H.
   - destruct (tcont (th s0 t)) as [|i r] eqn:Ec.
-    + destruct (tscript (th s0 t)) as [|c0 cs] eqn:Es; [inversion H; subst; split; auto|].
+    + destruct (tscript (th s0 t)) as [|c0 cs] eqn:Es; [inversion H; subst; split; [|split]; assumption|].
       match type of H with context [begin_cmd ?S t ?cc] =>
         destruct (begin_cmd S t cc) as [[st2 ev0] done] eqn:Eb; set (s1 := S) in * end.
       assert (I1 : CInv (core s1)).
       { eapply CInv_ceq; [|exact It]. unfold s1. same_core. }
       assert (P1 : pristine s1) by (unfold s1; prist s0 t).
+      assert (W1 : wfi s1) by (eapply wfi_eq; [| | |exact Wt]; reflexivity).
       assert (Hc1 : tcont (thr s1 t) = []) by (unfold s1; thr_simpl; exact Ec).
       assert (Ht1 : (t < nthr s1)%nat) by exact Htt.
-      destruct (begin_cmd_inv s1 t c0 st2 ev0 done I1 P1 Hc1 Ht1 Eb) as [I2 P2].
+      destruct (begin_cmd_inv s1 t c0 st2 ev0 done I1 P1 W1 Hc1 Ht1 Eb) as [I2 [P2 W2]].
       pose proof (begin_cmd_nthr _ _ _ _ _ _ Eb) as Hn.
-      eapply settle_inv in H; eauto. lia.
+      pose proof (settle_wfi _ _ _ _ _ _ W2 H) as W3.
+      eapply settle_inv in H; eauto; [|lia]. destruct H. split; [|split]; assumption.
     + destruct (exec_instr s0 t i r) as [st1 ev1] eqn:Ee.
       assert (I1 : CInv (core st1)) by (eapply exec_instr_inv; eauto).
       destruct (exec_instr_pristine _ _ _ _ _ _ Pt Htt Ee) as [P1 Ht1].
-      eapply settle_inv in H; eauto.
-  - eapply settle_inv in H; eauto.
+      pose proof (exec_instr_wfi _ _ _ _ _ _ Wt Ee) as W1.
+      pose proof (settle_wfi _ _ _ _ _ _ W1 H) as W3.
+      eapply settle_inv in H; eauto. destruct H. split; [|split]; assumption.
+  - assert (W1 : wfi (upd_th s0 t (set_tstarted (th s0 t) true))) by (eapply wfi_eq; [| | |exact Wt]; reflexivity).
+    pose proof (settle_wfi _ _ _ _ _ _ W1 H) as W3.
+    eapply settle_inv in H; eauto.
+    + destruct H. split; [|split]; assumption.
     + eapply CInv_ceq; [|exact It]. same_core.
     + prist s0 t.
 Qed.
@@ -871,7 +1045,7 @@ Qed.
 (** ** the initial state, and all reachable states *)
 Lemma MInv_init : forall scr, MInv (winit scr).
 Proof.
-  intro scr. split.
+  intro scr. split; [|split].
   - constructor; cbn; try (intros; discriminate); try (intros; contradiction); auto.
     constructor; cbn [core c_sl c_vlen c_base winit sl vlen bmbase slen snext sent].
     + lia.
@@ -882,6 +1056,7 @@ Proof.
       apply Z.ltb_lt in Hr. apply Z.leb_le in H0. rewrite usize_bits in Hr. pose proof (Z.div_pos bm 64 H0). lia.
     + intros; lia.
   - split; [cbn; lia|]. intros u Hu. cbn. split; reflexivity.
+  - split; [|split]; cbn; intros; discriminate.
 Qed.
 
 Definition reachable (st : wstate) : Prop := exists scr sched, st = fst (wrun (winit scr) sched).
